@@ -99,6 +99,125 @@ Qed.
 Print Assumptions C20_uid_valid_means.
 
 (* ------------------------------------------------------------------ *)
+(* 4. look-up tables: what PaletteColorLUT stores and what
+      PaletteColorLUTTransformation copies has even length for every table
+      (so the value written is the value held and reads back unchanged), and
+      the [lut_data] accessor returns the caller's entries *)
+Theorem C20_palette_store_even : forall bits data, bits = 8%Z \/ bits = 16%Z ->
+  Z.even (zlen (palette_store bits data)) = true.
+Proof. exact palette_store_even. Qed.
+Print Assumptions C20_palette_store_even.
+
+Theorem C20_palette_read_store : forall bits data, bits = 8%Z \/ bits = 16%Z ->
+  (forall v, In v data -> (0 <= v < 2 ^ bits)%Z) ->
+  palette_read bits (zlen data) (palette_store bits data) = data.
+Proof. exact palette_read_store. Qed.
+Print Assumptions C20_palette_read_store.
+
+Theorem C20_palette_lut_spec : forall bits first data,
+  (palette_lut bits first data = Err "ValueError" <-> palette_ok bits first data = false) /\
+  (forall d s, palette_lut bits first data = Ok (d, s) ->
+     palette_ok bits first data = true /\ d = lut_descriptor bits first data /\ s = palette_store bits data).
+Proof. exact palette_lut_spec. Qed.
+Print Assumptions C20_palette_lut_spec.
+
+Theorem C20_palette_transformation_holds_padded_tables : forall bits first r g b d ss,
+  palette_tf bits first r g b = Ok (d, ss) ->
+  ss = [palette_store bits r; palette_store bits g; palette_store bits b] /\
+  d = lut_descriptor bits first r /\ zlen r = zlen g /\ zlen g = zlen b /\
+  (forall s, In s ss -> Z.even (zlen s) = true).
+Proof. exact palette_tf_spec. Qed.
+Print Assumptions C20_palette_transformation_holds_padded_tables.
+
+(* copying [lut_data.tobytes()] instead of the stored value loses the pad *)
+Theorem C20_unpadded_store_refuted : exists data, Z.even (zlen (lut_bytes 8 data)) = false.
+Proof. exact unpadded_store_refuted. Qed.
+Print Assumptions C20_unpadded_store_refuted.
+
+(* LUT / VOILUT / ModalityLUT as they are (no pad): even length exactly for
+   16-bit tables and 8-bit tables with an even number of entries *)
+Theorem C20_plain_lut_even_iff : forall bits first data d s, plain_lut bits first data = Ok (d, s) ->
+  (Z.even (zlen s) = true <-> bits = 16%Z \/ Z.even (zlen data) = true).
+Proof. exact plain_lut_even_iff. Qed.
+Print Assumptions C20_plain_lut_even_iff.
+
+(* ------------------------------------------------------------------ *)
+(* 5. one call that builds several objects (create_segmentation_pyramid):
+      at least two levels; with no identifiers passed every level gets its own
+      valid identifier when the draws are distinct, and the harness observation
+      [canon] is the identity exactly when no identifier repeats *)
+Theorem C20_pyramid_outputs_ge2 : forall a b f n, (0 <= a)%Z -> (0 <= b)%Z ->
+  pyramid_outputs a b f = Ok n -> (2 <= n)%Z.
+Proof. exact pyramid_outputs_ge2. Qed.
+Print Assumptions C20_pyramid_outputs_ge2.
+
+Theorem C20_alloc_ids_fresh : forall n draws, NoDup draws ->
+  (forall d, In d draws -> (0 <= d < 10 ^ 35)%Z) -> (0 <= n <= Z.of_nat (length draws))%Z ->
+  exists l, alloc_ids n None draws = Ok l /\ Z.of_nat (length l) = n /\ NoDup l /\
+            (forall u, In u l -> uid_valid u = true) /\ canon l = iota (length l).
+Proof. exact alloc_ids_fresh. Qed.
+Print Assumptions C20_alloc_ids_fresh.
+
+Theorem C20_alloc_ids_given : forall n l draws,
+  (alloc_ids n (Some l) draws = Ok l <-> Z.of_nat (length l) = n) /\
+  (alloc_ids n (Some l) draws = Err "ValueError" <-> Z.of_nat (length l) <> n).
+Proof. exact alloc_ids_given. Qed.
+Print Assumptions C20_alloc_ids_given.
+
+Theorem C20_canon_identity_iff_nodup : forall l, canon l = iota (length l) <-> NoDup l.
+Proof. intros l. split; [apply canon_iota_nodup | apply canon_nodup]. Qed.
+Print Assumptions C20_canon_identity_iff_nodup.
+
+Theorem C20_repeated_identifier_refuted : exists u, canon [u; u] <> iota 2.
+Proof. exact repeated_id_refuted. Qed.
+Print Assumptions C20_repeated_identifier_refuted.
+
+(* ------------------------------------------------------------------ *)
+(* 6. native Parametric Map frames: stored elements are little endian and
+      hold the value the array element holds in memory for either byte order;
+      number of bytes; a little-endian single-mapping array is stored as its
+      memory image (where a serialiser may alias the caller's buffer - that
+      it does not WRITE to it is a run-time check only) *)
+Theorem C20_item_le_value : forall be it,
+  le_val (item_le be it) = if be then be_val it else le_val it.
+Proof. exact item_le_value. Qed.
+Print Assumptions C20_item_le_value.
+
+Theorem C20_pm_native_length : forall be m p k arr,
+  (forall plane, In plane arr -> length plane = p /\
+     forall px, In px plane -> forall j, (j < m)%nat -> length (nth j px []) = k) ->
+  length (pm_native be m arr) = (length arr * (m * (p * k)))%nat.
+Proof. exact pm_native_length. Qed.
+Print Assumptions C20_pm_native_length.
+
+Theorem C20_pm_native_le_single : forall arr,
+  (forall plane px, In plane arr -> In px plane -> exists it, px = [it]) ->
+  pm_native false 1 arr = concat (map (fun plane => concat (map (fun px => concat px) plane)) arr).
+Proof. exact pm_native_le_single. Qed.
+Print Assumptions C20_pm_native_le_single.
+
+Example C20_ex_lut : palette_lut 8 0 [1; 2; 3]%Z = Ok ([3; 0; 8], [1; 2; 3; 0])%Z /\
+                     palette_lut 16 0 [1; 258]%Z = Ok ([2; 0; 16], [1; 0; 2; 1])%Z /\
+                     palette_lut 8 256 [1]%Z = Err "ValueError" /\
+                     run_palette_read 8 [9; 8; 7]%Z = vz_list [9; 8; 7]%Z.
+Proof. vm_compute. repeat split. Qed.
+Print Assumptions C20_ex_lut.
+
+Example C20_ex_pyramid_ids :
+  run_pyramid_ids 1 1 (Some [8; 16]%Z) None = VL [VZ 3; vz_list [0; 1; 2]%Z] /\
+  run_pyramid_ids 1 1 (Some [8]%Z) (Some [5; 5]%Z) = VL [VZ 2; vz_list [0; 0]%Z] /\
+  run_pyramid_ids 1 1 (Some [8]%Z) (Some [5]%Z) = VErr "ValueError" /\
+  run_pyramid_ids 3 1 None None = VL [VZ 3; vz_list [0; 1; 2]%Z] /\
+  run_pyramid_ids 1 1 None None = VErr "TypeError".
+Proof. vm_compute. repeat split. Qed.
+Print Assumptions C20_ex_pyramid_ids.
+
+Example C20_ex_pm_native :
+  pm_native true 2 [[[[0; 1]; [2; 3]]; [[4; 5]; [6; 7]]]]%Z = [1; 0; 5; 4; 3; 2; 7; 6]%Z.
+Proof. vm_compute. reflexivity. Qed.
+Print Assumptions C20_ex_pm_native.
+
+(* ------------------------------------------------------------------ *)
 (* non-vacuity *)
 Close Scope Z_scope.
 Open Scope nat_scope.
